@@ -78,6 +78,8 @@ def mk_task(spec: Dict[str, Any]) -> ScheduledTask:
     sid = spec["sid"]
     labels = {"lbl": f"L{sid}", "n": sid}
     tn = spec.get("tn") or sid          # several schedules may belong to the same task
+    if spec.get("lblsid"):
+        labels["schedule_id"] = "s9999"     # labels copied from an earlier scheduled message: the schedule's own id must win
     if spec["kind"] == "cron":
         mins = spec["mins"]
         expr = ("*" if len(mins) == 60 else ",".join(str(m) for m in mins)) + " * * * *"
@@ -266,7 +268,7 @@ def normalize(cfg: Dict[str, Any]) -> Dict[str, Any]:
 
 def norm_sched(x: Dict[str, Any]) -> Dict[str, Any]:
     return {"sid": x["sid"], "kind": x["kind"], "mins": list(x.get("mins", [])), "T": x.get("T", 0), "cancel": bool(x.get("cancel", False)),
-            "naive": bool(x.get("naive", False)), "tn": x.get("tn", 0)}
+            "naive": bool(x.get("naive", False)), "tn": x.get("tn", 0), "lblsid": bool(x.get("lblsid", False))}
 
 
 def run(scn: Dict[str, Any]) -> List[Dict[str, Any]]:
